@@ -89,6 +89,13 @@ def with_timeout(fn, seconds, *a):
         signal.signal(signal.SIGALRM, old)
 
 
+def _timeout_result(job, why):
+    st = symx.Stats().as_dict()
+    st.update(name=f"{job[1]}|{job[2]}", cexs=[], samples=[], reach={"end": 1}, notes=[why + ": counted as inconclusive"], hashes=[], job=list(job), wall=0.0)
+    st["truncated"] = 1
+    return st
+
+
 def run_sym(job):
     try:
         return with_timeout(_run_sym, job[5].get("job_timeout_s", JOB_TIMEOUT()), job)
@@ -307,6 +314,9 @@ def plan(pid, tr, sd):
             ]
             if tr == "thorough":
                 hs += [[("set", k, "view"), ("setc", k, "handle"), ("grow",), ("set", k + 1, "handle")] for k in range(3)]
+            hs.append([("setr", 0, "handle"), ("set", 0, "view"), ("setr", 1, "view")])
+            hs.append([("setx", 0, "handle"), ("grow",), ("setx", 1, "view")])
+            hs.append([("setx", 2, "view"), ("setr", 2, "handle")])
             if wmode.has_string(t):
                 # strings: shorter value, empty value, full-length value again -- each must read back exactly
                 hs.append([("sets", 0, "handle"), ("sets", 0, "view"), ("sets", 0, "handle")])
@@ -324,7 +334,7 @@ def plan(pid, tr, sd):
             for k, mis in enumerate(ms):
                 jobs.append((pid, "c11", label, t, gens[0], dict(pls[(i + k) % 2], misuse=mis)))
         elif pid == "C08":
-            if not tg.has_ref(t) or t[0] != "struct":
+            if not tg.has_ref(t) or t[0] not in ("struct", "array"):
                 continue
             hs = [
                 [("bind_existing", 0, 0), ("grow",), ("bind_null", 0)],
@@ -358,6 +368,10 @@ def plan(pid, tr, sd):
             heavy = tg.has_ref(j[3]) or pid in ("C09", "C10", "C08", "C06", "C03", "C11")
             if heavy and cfg.get("N", 0) >= 1 and cfg.get("placement") != "grown":
                 j = j[:5] + (dict(cfg, roomy=1 << 14),)
+            elif tg.has_ref(j[3]) and cfg.get("grow_step") == "sym" and pid != "C08":
+                # one fork per allocation and growth decision: for reference-bearing types the quick tier uses
+                # the deterministic growth placement (capacity 0, every allocation grows) instead
+                j = j[:5] + (dict(placement="grown", alignment=8, **{k: v for k, v in cfg.items() if k not in ("placement", "N", "alignment", "grow_step")}),)
             out.append(j)
         jobs = out
     return jobs
@@ -382,7 +396,7 @@ def main(pid):
     if not jobs:
         rep.harness_error("empty job plan")
         return rep.finish()
-    results = run_parallel(run_sym, jobs)
+    results = run_parallel(run_sym, jobs, fallback=lambda job: _timeout_result(job, "no result before the check's deadline (worker lost?)"))
     slow = sorted(results, key=lambda r: -r["wall"])[:3]
     for res in results:
         rep.add_engine_result(res)
